@@ -31,7 +31,7 @@ var (
 
 // ---------------- Fp
 
-func mod(a *big.Int) *big.Int { return a.Mod(a, P) }
+func mod(a *big.Int) *big.Int      { return a.Mod(a, P) }
 func FpAdd(a, b *big.Int) *big.Int { return mod(new(big.Int).Add(a, b)) }
 func FpSub(a, b *big.Int) *big.Int { return mod(new(big.Int).Sub(a, b)) }
 func FpMul(a, b *big.Int) *big.Int { return mod(new(big.Int).Mul(a, b)) }
@@ -52,11 +52,11 @@ func FpSqrt(a *big.Int) (*big.Int, bool) {
 type Fp2 struct{ C0, C1 *big.Int }
 
 func NewFp2(c0, c1 *big.Int) Fp2 { return Fp2{new(big.Int).Set(c0), new(big.Int).Set(c1)} }
-func (a Fp2) Add(b Fp2) Fp2       { return Fp2{FpAdd(a.C0, b.C0), FpAdd(a.C1, b.C1)} }
-func (a Fp2) Sub(b Fp2) Fp2       { return Fp2{FpSub(a.C0, b.C0), FpSub(a.C1, b.C1)} }
-func (a Fp2) Neg() Fp2            { return Fp2{FpNeg(a.C0), FpNeg(a.C1)} }
-func (a Fp2) IsZero() bool        { return a.C0.Sign() == 0 && a.C1.Sign() == 0 }
-func (a Fp2) Equal(b Fp2) bool    { return a.C0.Cmp(b.C0) == 0 && a.C1.Cmp(b.C1) == 0 }
+func (a Fp2) Add(b Fp2) Fp2      { return Fp2{FpAdd(a.C0, b.C0), FpAdd(a.C1, b.C1)} }
+func (a Fp2) Sub(b Fp2) Fp2      { return Fp2{FpSub(a.C0, b.C0), FpSub(a.C1, b.C1)} }
+func (a Fp2) Neg() Fp2           { return Fp2{FpNeg(a.C0), FpNeg(a.C1)} }
+func (a Fp2) IsZero() bool       { return a.C0.Sign() == 0 && a.C1.Sign() == 0 }
+func (a Fp2) Equal(b Fp2) bool   { return a.C0.Cmp(b.C0) == 0 && a.C1.Cmp(b.C1) == 0 }
 func (a Fp2) Mul(b Fp2) Fp2 {
 	return Fp2{FpSub(FpMul(a.C0, b.C0), FpMul(a.C1, b.C1)), FpAdd(FpMul(a.C0, b.C1), FpMul(a.C1, b.C0))}
 }
